@@ -37,29 +37,37 @@ Definition zmax_list (l : list Z) (d : Z) : Z := fold_right Z.max d l.
 
 (* Solvers.__Solver_2: the bordered matrix and right-hand side (Dirichlet lines in canonical order:
    one line per distinct dof, ascending, carrying the SUM of the values entered for it) *)
+(* the bordered matrix / right-hand side as functions of (row, column), over abstract A, b, Dirichlet values *)
+Definition lag_dofs (c : list Z * list Z * Z) : list Z := fst (fst c).
+Definition lag_coefs (c : list Z * list Z * Z) : list Z := snd (fst c).
+Definition lag_val (c : list Z * list Z * Z) : Z := snd c.
+
+Definition r2_border (n alpha : Z) (ud : list Z) (lags : list (list Z * list Z * Z)) (i j : Z) : Z :=   (* i < n <= j *)
+  let nD := Z.of_nat (length ud) in
+  if j <? n + nD then (if nth (Z.to_nat (j - n)) ud (-1) =? i then alpha else 0)
+  else let c := nth (Z.to_nat (j - n - nD)) lags ([], [], 0) in alpha * esum (lag_dofs c) (lag_coefs c) i.
+
+Definition r2_M (n alpha : Z) (Af : Z -> Z -> Z) (ud : list Z) (lags : list (list Z * list Z * Z)) (i j : Z) : Z :=
+  if (i <? n) && (j <? n) then Af i j
+  else if (i <? n) then r2_border n alpha ud lags i j
+  else if (j <? n) then r2_border n alpha ud lags j i
+  else 0.
+
+Definition r2_rhs (n alpha : Z) (bf vD : Z -> Z) (ud : list Z) (lags : list (list Z * list Z * Z)) (i : Z) : Z :=
+  let nD := Z.of_nat (length ud) in
+  if i <? n then bf i
+  else if i <? n + nD then alpha * vD (nth (Z.to_nat (i - n)) ud (-1))
+  else alpha * lag_val (nth (Z.to_nat (i - n - nD)) lags ([], [], 0)).
+
+(* Solvers.__Solver_2: the bordered matrix and right-hand side (Dirichlet lines in canonical order:
+   one line per distinct dof, ascending, carrying the SUM of the values entered for it) *)
 Definition r2_exec (n : Z) (A : list (list Z)) (F dofsN valsN dofsD valsD orph : list Z)
            (lags : list (list Z * list Z * Z)) : list (list Z) * list Z * Z :=
   let ud := usort dofsD in
-  let nD := Z.of_nat (length ud) in
-  let nL := Z.of_nat (length lags) in
-  let N := n + nD + nL in
+  let N := n + Z.of_nat (length ud) + Z.of_nat (length lags) in
   let alpha := zmax_list (flat_map (fun i => map (fun j => sysA A orph i j) (zrange n)) (zrange n)) 0 in
-  let dline k := nth (Z.to_nat k) ud (-1) in
-  let lcoef l i := let '(ds, cs, _) := nth (Z.to_nat l) lags ([], [], 0) in esum ds cs i in
-  let lval l := let '(_, _, v) := nth (Z.to_nat l) lags ([], [], 0) in v in
-  let border i j :=   (* i < n <= j *)
-      if j <? n + nD then (if dline (j - n) =? i then alpha else 0)
-      else alpha * lcoef (j - n - nD) i in
-  let M i j :=
-      if (i <? n) && (j <? n) then sysA A orph i j
-      else if (i <? n) then border i j
-      else if (j <? n) then border j i
-      else 0 in
-  let rhs i :=
-      if i <? n then sysb F dofsN valsN i
-      else if i <? n + nD then alpha * esum dofsD valsD (dline (i - n))
-      else alpha * lval (i - n - nD) in
-  (map (fun i => map (M i) (zrange N)) (zrange N), map rhs (zrange N), alpha).
+  (map (fun i => map (r2_M n alpha (sysA A orph) ud lags i) (zrange N)) (zrange N),
+   map (r2_rhs n alpha (sysb F dofsN valsN) (esum dofsD valsD) ud lags) (zrange N), alpha).
 
 Definition check_r1 n A F dofsN valsN dofsD valsD orph nonlinear u xi
            (impl : list (list Z) * list Z * list Z) : bool * bool * bool :=
